@@ -207,9 +207,10 @@ Definition check_recorded_once (pkgs : list pkg) (db : list dbpkg) (tree : list 
       match recorders pkgs db (h_path h), tree_get tree (h_path h) with
       | _, Some {| t_kind := TSym |} => []     (* judged by [check_entry]: a stale entry under a symbolic link *)
       | [], Some n =>
-          (* nobody records the path: named precisely when it is the writer's
-             sort that dropped it *)
-          if forallb (fun pk => negb (ships_content pk (h_path h) (t_sum n)) || negb (has_dir_headers pk (h_path h))) pkgs
+          (* nobody records the path: named precisely when a package shipping the
+             bytes present (the possible owners) lacks a directory header for an
+             ancestor, so that the writer's sort dropped its entry *)
+          if existsb (fun pk => ships_content pk (h_path h) (t_sum n) && negb (has_dir_headers pk (h_path h))) pkgs
           then ["viol:db-drops-file-without-directory-headers"] else ["viol:db-file-unrecorded"]
       | [pk], Some n =>
           tag_if (negb (tkind_eqb (t_kind n) TReg && ships_content pk (h_path h) (t_sum n))) "viol:db-owner-wrong"
